@@ -510,6 +510,19 @@ class Interp:
             d = self.decide_cond(v)
             if d is not None:
                 return d
+            # an inequality between free scalar inputs (step sizes, coefficients, tolerances): both outcomes are feasible for the
+            # quantified inputs and neither pins a value, so both are analysed as separate cases; on each path the symbols stay
+            # free, i.e. identities checked there must hold as polynomial identities, which is what holding on an interval means
+            from .extlib import ExtLib
+            ats = list(v.p.atoms())
+            if ats and all(a[0] == "s" and a[1] not in ExtLib.INT_SYMBOLS and not a[1].startswith("@") and a[1] not in ("nx", "ny", "nz")
+                           for a in ats):
+                from .regions import CURRENT_CASE, NeedDecision
+                key = repr(v)
+                d = CURRENT_CASE[0].decision(key)
+                if d is None:
+                    raise NeedDecision(key, "%r at %s" % (v, self.where(st, ms)))
+                return d
         if isinstance(v, (Inst, Func, Bound, Kernel, Class)):
             return True
         if isinstance(v, PW) and v.is_leaf() and v.leaf.is_poly():
